@@ -49,6 +49,11 @@ def invariants(kind, kw, stream, out):
     def col(f):
         return [(r.get(f) if isinstance(r, dict) else None) for r in out] if f else out
 
+    # ---- every reading is None, a bool or a real number (a complex value, a string, … is no reading at all)
+    for t, r in enumerate(out):
+        for f, v in (r.items() if isinstance(r, dict) else [("", r)]):
+            if v is not None and not isinstance(v, (bool, int, float)):
+                yield ("type" + (f":{f}" if f else ""), t, repr(v)[:60], "None, a bool or a real number")
     # ---- every numeric reading is rounded to round_value decimals
     for t, r in enumerate(out):
         for f, v in (r.items() if isinstance(r, dict) else [("", r)]):
@@ -207,7 +212,8 @@ def gen_scn(rng, idx, params):
             stream = T.add_gaps(rng, stream)
         meta = {"family": "random", "price": smeta["price"], "ts": smeta["ts"], "gaps": gaps}
     (init, chunks), shape = gen.gen_schedule(rng, len(stream))
-    scn = {"prop": "C10", "kind": kind, "kwargs": kw, "tf": tf, "fill": fill, "ha": ha, "family": family, "stream": stream, "init": init, "chunks": chunks}
+    scn = {"prop": "C10", "kind": kind, "kwargs": kw, "tf": tf, "fill": fill, "ha": ha, "family": family, "stream": stream, "init": init, "chunks": chunks,
+           "bare_single": rng.random() < 0.5}
     meta.update(kind=kind, tf_unit=tf[0] if tf else "-", fill=bool(fill), ha=ha, schedule=shape, rv=kw.get("round_value", 4))
     return scn, meta
 
